@@ -20,12 +20,24 @@ ROOTS = {"Intent": "intent.yaml", "Navigation": "navigate.yaml", "OverView": "ov
 
 
 # ------------------------------------------------------------------------------------------------- ASTs as Coq terms
-def ast_term(items):
+class Lits:
+    """the table of literals of a tie: the stored text of a t / ct / ot item -> its number (0: not numbered)"""
+
+    def __init__(self):
+        self.ids = {}
+
+    def of(self, text):
+        if text not in self.ids:
+            self.ids[text] = len(self.ids) + 1
+        return self.ids[text]
+
+
+def ast_term(items, lits=None):
     """a replacement (JSON of h_rules_tast) as a Coq term of Model/RuleAst.v"""
     def item(x):
         k = x["k"]
         if k == "T":
-            return "T1" if x["ne"] else "T0"
+            return "(IText %s %d)" % ("true" if x["ne"] else "false", lits.of(x.get("text", "")) if lits is not None else 0)
         if k == "X":
             return "X"
         if k == "S":
@@ -65,7 +77,16 @@ def ast_term(items):
     return lst(items)
 
 
-AST_NOTATIONS = "Notation T1 := (IText true).\nNotation T0 := (IText false).\nNotation X := IX.\nNotation V := ISetVars.\n"
+def substitute_ch(ast, ch):
+    """UnicodeDef::build for a key that names several characters: every '.' of every string becomes the character"""
+    if isinstance(ast, list):
+        return [substitute_ch(x, ch) for x in ast]
+    if isinstance(ast, dict):
+        return {k: (v.replace(".", ch) if k == "text" and isinstance(v, str) else substitute_ch(v, ch)) for k, v in ast.items()}
+    return ast
+
+
+AST_NOTATIONS = "Notation X := IX.\nNotation V := ISetVars.\n"
 
 
 def entry_codes(e):
@@ -119,8 +140,9 @@ def load_unicode(root):
         if "include" in e:
             tab.update(load_unicode(os.path.realpath(os.path.join(os.path.dirname(os.path.realpath(root)), e["include"]))))
         elif "replace" in e and "name" not in e:
-            for c in entry_codes(e):
-                tab[c] = e["replace"]
+            codes = entry_codes(e)
+            for c in codes:
+                tab[c] = substitute_ch(e["replace"], chr(c)) if len(e.get("char") or "") > 1 else e["replace"]
     return tab
 
 
@@ -162,6 +184,8 @@ def parse_log(log):
                 return None
             if line.startswith("n "):
                 stack[-1]["ev"].append(100 + int(line[2:]))
+            elif line.startswith("I T"):
+                stack[-1]["ev"] += [1, ("lit", line[3:])]
             elif line in EV:
                 stack[-1]["ev"].append(EV[line])
             else:
@@ -176,7 +200,7 @@ def parse_log(log):
             if e == 20:
                 outcomes.append(1 if i + 1 < len(ev) and ev[i + 1] == 21 else 0)
             elif e == 8:
-                outcomes.append(ev[i + 1] - 100 if i + 1 < len(ev) and ev[i + 1] >= 100 else 0)
+                outcomes.append(ev[i + 1] - 100 if i + 1 < len(ev) and isinstance(ev[i + 1], int) and ev[i + 1] >= 100 else 0)
         out.append((a["key"], ev, outcomes))
     return out, matches
 
@@ -258,7 +282,13 @@ TIE_CONFIGS = [
     {"Language": "sv", "SpeechStyle": "ClearSpeak", "Verbosity": "Terse", "BrailleCode": "Swedish"},
     {"Language": "vi", "SpeechStyle": "ClearSpeak", "Verbosity": "Medium", "BrailleCode": "ASCIIMath"},
     {"Language": "id", "SpeechStyle": "SimpleSpeak", "Verbosity": "Medium", "BrailleCode": "LaTeX"},
+    # regional variants: their Unicode file includes the language's and redefines some characters
+    {"Language": "en-gb", "SpeechStyle": "ClearSpeak", "Verbosity": "Medium", "BrailleCode": "UEB"},
+    {"Language": "en-gb", "SpeechStyle": "SimpleSpeak", "Verbosity": "Terse", "BrailleCode": "Nemeth"},
 ]
+REGIONAL_BODIES = ["<mrow><mo>(</mo><mi>x</mi><mo>+</mo><mn>1</mn><mo>)</mo><mo>[</mo><mi>y</mi><mo>]</mo><mo>{</mo><mi>z</mi><mo>}</mo></mrow>",
+                   "<mrow><mi>f</mi><mo>&#x2061;</mo><mrow><mo>(</mo><mi>x</mi><mo>)</mo></mrow><mo>=</mo><mo>{</mo><mn>1</mn><mo>,</mo><mn>2</mn><mo>}</mo></mrow>"]
+FILE_KEYS = {"Intent": "intent", "Speech": "speech", "OverView": "overview", "Navigation": "navigation", "Braille": "braille"}
 
 
 def tie_ops(cfg, bodies):
@@ -267,36 +297,42 @@ def tie_ops(cfg, bodies):
     for b in bodies:
         ops += [["set_mathml", X.math(b)], ["get_spoken_text"], ["get_braille", ""], ["get_overview_text"],
                 ["do_navigate_command", "ZoomIn"], ["do_navigate_command", "MoveNext"], ["do_navigate_command", "DescribeCurrent"]]
-    return ops
+    return ops + [["v_prefs_files"]]
 
 
 def generate(res, bodies, configs=None, max_eval=6000, max_match=6000):
     """run the bodies under the tie configurations with the trace on; write Gen/RuleEvalObs.v; returns statistics and
     the disagreements python can already see (an application whose rule / character is not in the files as loaded)"""
     configs = configs or TIE_CONFIGS
-    logs = trace_sessions([tie_ops(cfg, bodies) for cfg in configs])
+    bodies = list(bodies) + REGIONAL_BODIES
+    ss = [{"id": i, "ops": [["v_trace_eval", True]] + tie_ops(cfg, bodies) + [["v_take_eval_log"], ["v_trace_eval", False]]} for i, cfg in enumerate(configs)]
+    runs = []
+    for r in C.run_harness(ss):
+        rs = r.get("res") or []
+        ok = len(rs) >= 3 and isinstance(rs[-2], dict) and "ok" in rs[-2] and "ok" in rs[-3]
+        runs.append((rs[-2]["ok"], dict((k, v) for k, v in rs[-3]["ok"])) if ok else ([], {}))
     sets = RuleSets()
-    eval_obs, match_obs, asts = {}, {}, {}
+    lits = Lits()
+    eval_obs, match_obs = {}, {}
     stats = {"sessions": len(configs), "events": 0, "unparsed": 0, "applications": 0, "matches": 0, "unknown_rule": 0, "unknown_char": 0,
-             "with_test": 0, "with_insert": 0, "no_hit": 0}
+             "with_test": 0, "with_insert": 0, "with_literal": 0, "no_hit": 0}
     missing = []
     uni = {}
-    for cfg, log in zip(configs, logs):
+    for cfg, (log, files) in zip(configs, runs):
         stats["events"] += len(log)
         parsed = parse_log(log)
-        if parsed is None:
+        if parsed is None or not files:
             stats["unparsed"] += 1
             continue
         apps, matches = parsed
+        roots = {rs: files.get(k) for rs, k in FILE_KEYS.items()}
         for key, ev, outcomes in apps:
             stats["applications"] += 1
             if key[0] == "R":
                 _, f, name, tag = key
-                # the rule set is the one whose table holds the file: find by trying the rule sets of this configuration
                 ast = None
-                for rs in ("Intent", "Speech", "Braille", "Navigation", "OverView"):
-                    root = root_of(rs, cfg)
-                    if not os.path.exists(root):
+                for rs, root in roots.items():
+                    if not root or not os.path.exists(root):
                         continue
                     rid = sets.rule_id(root, f, name, tag)
                     if rid is not None:
@@ -308,30 +344,37 @@ def generate(res, bodies, configs=None, max_eval=6000, max_match=6000):
                     continue
             else:
                 _, code, rules = key
-                short, full = unicode_of(rules, cfg)
+                pre = "braille" if rules == "Braille" else "speech"
+                short, full = files.get(pre + "_unicode"), files.get(pre + "_unicode_full")
                 for p in (short, full):
-                    if p not in uni:
+                    if p and p not in uni:
                         uni[p] = load_unicode(p) if os.path.exists(p) else {}
-                ast = uni[short].get(code)
+                ast = uni.get(short, {}).get(code)
                 if ast is None:
-                    ast = uni[full].get(code)
+                    ast = uni.get(full, {}).get(code)
                 if ast is None:
                     stats["unknown_char"] += 1
                     missing.append({"char": code, "rules": rules, "config": cfg})
                     continue
-            t = ast_term(ast)
+            t = ast_term(ast, lits)
+            ev = tuple((1000000 + lits.of(e[1])) if isinstance(e, tuple) else e for e in ev)
             if 20 in ev:
                 stats["with_test"] += 1
             if 8 in ev:
                 stats["with_insert"] += 1
-            k = (t, tuple(outcomes), tuple(ev))
+            if any(e >= 1000000 for e in ev):
+                stats["with_literal"] += 1
+            k = (t, tuple(outcomes), ev)
             if k not in eval_obs:
                 eval_obs[k] = (key, cfg)
         for rules, tag, tried, hit in matches:
             stats["matches"] += 1
             if not hit:
                 stats["no_hit"] += 1
-            root = os.path.realpath(root_of(rules, cfg))
+            root = roots.get(rules)
+            if not root:
+                continue
+            root = os.path.realpath(root)
             sets.table(root)
             ids = []
             for f, name, tg in tried:
@@ -365,8 +408,8 @@ def generate(res, bodies, configs=None, max_eval=6000, max_match=6000):
     body += "Definition match_obs : list (N * str * list N * bool) := " + clist(
         "(%d, %s, [%s], %s)" % (roots.index(r), cstr(tag), "; ".join(map(str, ids)), "true" if hit else "false") for r, tag, ids, hit in m_items) + ".\n"
     C.write_if_changed(os.path.join(C.GEN, "RuleEvalObs.v"), body)
-    stats.update({"eval_cases": len(ev_items), "distinct_asts": len(ast_ids), "match_cases": len(m_items), "rule_sets": [os.path.relpath(r, C.RULES) for r in roots],
-                  "rules_per_set": [len(sets.tables[r]) for r in roots]})
+    stats.update({"eval_cases": len(ev_items), "distinct_asts": len(ast_ids), "match_cases": len(m_items), "literals": len(lits.ids),
+                  "rule_sets": [os.path.relpath(r, C.RULES) for r in roots], "rules_per_set": [len(sets.tables[r]) for r in roots]})
     return stats, missing, ev_items, m_items, eval_obs, match_obs, roots
 
 
